@@ -1,0 +1,6 @@
+//go:build !verif
+
+package wasm
+
+// verifYield is a verification hook; without the `verif` build tag it does nothing.
+func verifYield(point string, m *ModuleInstance) {}
